@@ -530,6 +530,7 @@ def run(w: World, rep: Report):
 
     # ---- R5 concatenation order ------------------------------------------------------
     _concat_order(w, rep)
+    _compile_entry(w, rep)
 
     # ---- R6 macro / symbol tables are expanded from copies ---------------------------------
     _macro_table(w, rep)
@@ -809,6 +810,41 @@ def _macro_table(w: World, rep: Report):
                       f'caller\'s symbols change, so a later expansion emits different instructions than written')
     rep.check('C11.R6', 'parsing|macro-table-writers', n >= 1, file=RELP, trivial=True,
               why='' if n >= 1 else 'define_macro no longer stores into the macro table', facts={'writes_seen': n})
+
+
+def _compile_entry(w: World, rep: Report):
+    """compile_script hands exactly get_symbols(script) to assemble and returns its result;
+    assemble runs parse_comptime over all symbols first and then parses from index 0."""
+    cs = w.repo.func('parsing', 'compile_script')
+    rets = [n for n in ast.walk(cs.node) if isinstance(n, ast.Return)]
+    ok = len(rets) == 1 and isinstance(rets[0].value, ast.Call) and dotted(rets[0].value.func) == 'assemble'
+    if ok:
+        a0 = rets[0].value.args[0] if rets[0].value.args else None
+        src = a0
+        if isinstance(a0, ast.Name):
+            defs = [n.value for n in ast.walk(cs.node) if isinstance(n, ast.Assign) and isinstance(n.targets[0], ast.Name)
+                    and n.targets[0].id == a0.id]
+            src = defs[0] if len(defs) == 1 else None
+        ok = isinstance(src, ast.Call) and dotted(src.func) == 'get_symbols' and len(src.args) == 1 and \
+            isinstance(src.args[0], ast.Name) and src.args[0].id == cs.params[0]
+    rep.check('C11.R5', 'parsing.compile_script|all-symbols-to-assemble', ok, file=RELP, line=cs.node.lineno,
+              why='' if ok else 'compile_script does not return assemble(get_symbols(script)) over the whole source')
+    am = w.repo.func('parsing', 'assemble')
+    txt = [ast.unparse(n).replace(' ', '') for n in am.node.body]
+    loops = [n for n in am.node.body if isinstance(n, ast.While)]
+    ivar = loops[0].test.left.id if loops and isinstance(loops[0].test, ast.Compare) and \
+        isinstance(loops[0].test.left, ast.Name) else None
+    idx0 = ivar is not None and f'{ivar}=0' in txt
+    pc = [n for n in ast.walk(am.node) if isinstance(n, ast.Assign) and isinstance(n.value, ast.Call)
+          and dotted(n.value.func) == 'parse_comptime']
+    ok = idx0 and len(pc) == 1 and isinstance(pc[0].targets[0], ast.Name) and pc[0].targets[0].id == am.params[0] and \
+        isinstance(pc[0].value.args[0], ast.Name) and pc[0].value.args[0].id == am.params[0]
+    rets = [n for n in ast.walk(am.node) if isinstance(n, ast.Return)]
+    import re as _re
+    ok = ok and len(rets) == 1 and bool(_re.fullmatch(r"b''\.join\(\w+\)", ast.unparse(rets[0].value).replace(' ', '')))
+    rep.check('C11.R5', 'parsing.assemble|whole-symbol-list-from-zero', ok, file=RELP, line=am.node.lineno,
+              why='' if ok else 'assemble does not expand comptime over all symbols, start at index 0 and return the '
+              'concatenation of all parts')
 
 
 def _block_of(root, stmt):
